@@ -233,7 +233,17 @@ fn check_layout(t: &mut Tape, ctx: &Ctx) -> Outcome {
         // the width of `[n]` moves the cursor: column-dependent output would depend on the numbering
         o.layout_dep = false;
     }
-    let g = gen::program(t, &o);
+    let mut g = gen::program(t, &o);
+    // under TRON the implicit END is traced as the last line, which an inserted line would move:
+    // such programs get an explicit END
+    if tron && g.prog.lines.last().map(|l| l.stmts != vec![Stmt::End]).unwrap_or(false) {
+        let n = g.prog.lines.last().map(|l| l.num).unwrap_or(0);
+        if n < 65000 {
+            g.prog.lines.push(Line { num: n + 1, stmts: vec![Stmt::End] });
+        } else {
+            return Outcome::discard("no room for an explicit END behind the last line");
+        }
+    }
     let probes = probes_text(&g);
     let texts = g.prog.texts();
     let tr = match transform(t, &g.prog, !tron) {
@@ -403,6 +413,53 @@ fn check_direct_vs_oneline(t: &mut Tape, ctx: &Ctx) -> Outcome {
     }
 }
 
+// ------------------------------------------------------------------ the last statement of the program
+
+/// Whatever statement closes the stored program, a trailing remark line or an explicit END
+/// behind it changes nothing: control that leaves the last statement ends the run.
+fn check_last_statement(t: &mut Tape, ctx: &Ctx) -> Outcome {
+    let sel = *t.pick(&["0", "1", "2", "3", "-0", "2.6"]);
+    let last = match t.below(12) {
+        0 => format!("ON {} GOTO 10,18", sel),
+        1 => format!("X={}:ON X GOTO 18", sel),
+        2 => format!("ON {} GOSUB 10", sel),
+        3 => "IF A=1 THEN PRINT \"T\"".to_string(),
+        4 => "IF A=1 THEN 10".to_string(),
+        5 => "IF A=0 THEN PRINT \"T\" ELSE PRINT \"F\"".to_string(),
+        6 => "FOR I=1 TO 2:PRINT I;:NEXT".to_string(),
+        7 => "W=0:WHILE W<2:W=W+1:PRINT W;:WEND".to_string(),
+        8 => "IF K<2 THEN K=K+1:GOSUB 10".to_string(),
+        9 => "PRINT \"L\";:IF K<1 THEN K=K+1:GOTO 18".to_string(),
+        10 => "IF K<1 THEN K=K+1:ON 1 GOTO 18".to_string(),
+        _ => "K=K+1:IF K<3 THEN ON K GOTO 18,18".to_string(),
+    };
+    let prog: Vec<String> = vec!["5 GOTO 18".to_string(), "10 PRINT \"S\";:IF K>0 THEN RETURN".to_string(), "15 K=K+1:IF K<2 THEN 18 ELSE END".to_string(), "18 F=F+1:IF F>3 THEN END".to_string(), format!("20 {}", last)];
+    let direct = vec![t.pick(&["RUN", "K=0:A=0:GOTO 5", "RUN 20", "A=1:GOTO 20", "RUN 18"]).to_string(), "PRINT \"|\";K;A;F".to_string()];
+    let mut p_rem = prog.clone();
+    p_rem.push("30 REM trailer".to_string());
+    let mut p_end = prog.clone();
+    p_end.push("30 END".to_string());
+    let case = format!("{}\n> {}\n> {}", prog.join("\n"), direct[0], direct[1]);
+    crate::runner::note_case(&case);
+    let a = run_direct(&prog, &direct);
+    let b = run_direct(&p_rem, &direct);
+    let c = run_direct(&p_end, &direct);
+    match (a, b, c) {
+        (Some(a), Some(b), Some(c)) => {
+            if a != b || a != c {
+                return Outcome::fail("layout-changed-behaviour", format!("program as shown: {:?}\nwith 30 REM trailer behind it: {:?}\nwith 30 END behind it: {:?}", a, b, c), case);
+            }
+            let o2 = Outcome::pass(true, hash_str(&case));
+            if ctx.render {
+                o2.with_case(format!("{}\n=> {:?}", case, a))
+            } else {
+                o2
+            }
+        }
+        _ => Outcome::discard("program entry printed something"),
+    }
+}
+
 pub fn property() -> Property {
     Property {
         id: "C20",
@@ -415,6 +472,7 @@ Non-trivial: something was inserted or split in front of a line that is a jump t
             Sub::tape("layout_transforms", check_layout, 40_000, 1_500_000, 1000),
             Sub::tape("direct_vs_program", check_direct_vs_program, 15_000, 500_000, 1400),
             Sub::tape("direct_vs_oneline", check_direct_vs_oneline, 30_000, 1_000_000, 400),
+            Sub::tape("last_statement", check_last_statement, 500, 3_000, 8),
         ],
     }
 }
